@@ -55,7 +55,11 @@ def new_player(number):
 def new_dev():
     return {"t1_running": False, "c_np": None, "attached": {"m1": None, "m2": None}, "seq": {"m1": 0, "m2": 0},
             "load_time": {"m1": None, "m2": None}, "pending_enable": {"m1": [], "m2": []},
-            "timeout": {}, "restore_arm": {}, "dl": [], "dl_base_known": True}
+            "timeout": {}, "restore_arm": {}, "dl": [], "dl_base_known": True,
+            "sg2_rot": False,      # shot group sg2: rotation is off until ev_sg2_rot_on, from config at every mode start
+            "sq": {},              # score queue sq_pts: player -> undelivered points [certainly queued, possibly queued,
+                                   #   queued after ball_ending stopped waiting for the queue]
+            "sq_gate": False}      # the score queue's ball_ending handler has let the current ball end pass
 
 
 class X:
@@ -259,6 +263,29 @@ def sg_each(fn):
     return f
 
 
+def sg2_rot(on):
+    def f(x):
+        x.dev["sg2_rot"] = on
+    return f
+
+
+def sg2_rotate(x):
+    # rotate_events of a group whose rotation is not enabled do nothing
+    if x.dev["sg2_rot"]:
+        sg_rotate(x, True)
+
+
+def sq_add(n):
+    """score_queue_player: n points are queued for the player who is up; they arrive digit by digit later."""
+    def f(x):
+        pool = x.dev["sq"].setdefault(x.pnum, [0, 0, 0])
+        if x.dev["sq_gate"]:
+            pool[2] += n
+        else:
+            pool[0 if x.must else 1] += n
+    return f
+
+
 def sg_rotate(x, right=True):
     st = [shot_cur(x, n) for n in SHOT_ORDER]
     new = [st[-1]] + st[:-1] if right else st[1:] + [st[0]]
@@ -432,6 +459,13 @@ EFFECTS = {
     "ev_sg_reset": [("m1", sg_each(shot_reset))],
     "ev_sg_enable": [("m1", sg_each(shot_enable))],
     "ev_sg_disable": [("m1", sg_each(shot_disable))],
+    "ev_sg2_rot_on": [("m1", sg2_rot(True))],
+    "ev_sg2_rot_off": [("m1", sg2_rot(False))],
+    "ev_sg2_rotate": [("m1", sg2_rotate)],
+    "ev_sq_30": [("m1", sq_add(30))],
+    "ev_sq_20": [("m1", sq_add(20))],
+    "ev_sq_120": [("m1", sq_add(120))],
+    "ev_sq_2": [("m1", sq_add(2))],
     "ev_ach1_start": [("m1", _p(ach_start, "ach1"))],
     "ev_ach1_stop": [("m1", _p(ach_stop, "ach1"))],
     "ev_ach1_complete": [("m1", _p(ach_complete, "ach1"))],
@@ -498,6 +532,8 @@ def model_load(x, mode):
                 dev["pending_enable"][mode].append(name)
     if mode != "m1":
         return
+    # a shot group's rotation starts from its config (enable_rotation_events => off) whenever its mode starts
+    dev["sg2_rot"] = False
     for n in SHOT_ORDER:
         key = "shot_%s_enabled" % n
         if key not in x.ps["vars"]:
